@@ -229,7 +229,8 @@ class Model:
                 f_fonts = form.get("fonts") or fonts
                 items = self.run(form["ops"], ctm=mm(tuple(Fr(v) for v in form["matrix"]), gs.ctm), gs=inner,
                                  fonts=f_fonts, depth=depth + 1)
-                out.append(("figure", o[1], items))
+                # (4th member: the matrix the form's content is drawn with = form matrix x CTM at the Do)
+                out.append(("figure", o[1], items, mm(tuple(Fr(v) for v in form["matrix"]), gs.ctm)))
                 self.flags.add("form")
             elif k == "bad":
                 self.flags.add("bad-op")
@@ -351,6 +352,16 @@ class Model:
             elif k in ("Td", "TD", "Tm", "T*"):
                 shown_on_line = 0
         return out
+
+
+def figures(items):
+    """The figure items in painting order, depth first."""
+    out = []
+    for it in items:
+        if it[0] == "figure":
+            out.append(it)
+            out.extend(figures(it[2]))
+    return out
 
 
 def flatten(items, kind=None):
